@@ -29,13 +29,15 @@ class Site:
         return [("" if pol else "not ") + norm(t) for t, pol in self.guards]
 
     def has(self, pattern: str, polarity: bool | None = None) -> bool:
+        """Does some guard, in any of its equivalent spellings (`c` / `not c` with the opposite polarity, `a != b` / `a == b`
+        with the opposite polarity, ...), match `pattern` with the given polarity?"""
         rx = re.compile(pattern)
         for t, pol in self.guards:
-            if polarity is not None and pol != polarity:
-                # a negated guard may contain the pattern under `not`
-                continue
-            if rx.search(norm(t)):
-                return True
+            for text, p in equivalent_forms(t, pol):
+                if polarity is not None and p != polarity:
+                    continue
+                if rx.search(text):
+                    return True
         return False
 
     def isinstance_of(self, cls: str) -> bool:
@@ -104,7 +106,23 @@ def guard_chain(f: Func, node: ast.AST, pm: dict[ast.AST, ast.AST]) -> list[tupl
                     guards.append((par.test, True))
         cur = par
     guards.reverse()
-    return guards
+    return [normal_polarity(t, pol) for t, pol in guards]
+
+
+def normal_polarity(test: ast.expr, pol: bool) -> tuple[ast.expr, bool]:
+    """Canonical orientation of a guard, so that `if not c: continue` followed by code, `if c: code` and `if not (not c): ...` give
+    the same (test, polarity) pair: a leading `not` is folded into the polarity, and the negative comparison operators
+    (`is not`, `!=`, `not in`) are written with their positive counterpart and the opposite polarity."""
+    changed = True
+    while changed:
+        changed = False
+        if isinstance(test, ast.UnaryOp) and isinstance(test.op, ast.Not):
+            test, pol, changed = test.operand, not pol, True
+        elif isinstance(test, ast.Compare) and len(test.ops) == 1 and isinstance(test.ops[0], (ast.IsNot, ast.NotEq, ast.NotIn)):
+            pos = {ast.IsNot: ast.Is, ast.NotEq: ast.Eq, ast.NotIn: ast.In}[type(test.ops[0])]()
+            test = ast.copy_location(ast.Compare(left=test.left, ops=[pos], comparators=test.comparators), test)
+            pol, changed = not pol, True
+    return test, pol
 
 
 def error_sites(repo: Repo, funcs: list[Func] | None = None) -> list[Site]:
@@ -142,3 +160,22 @@ def _stmt_of(pm, n: ast.AST) -> ast.AST:
     while not isinstance(cur, ast.stmt) and cur in pm:
         cur = pm[cur]
     return cur
+
+
+_NEG = {ast.Is: ast.IsNot, ast.IsNot: ast.Is, ast.Eq: ast.NotEq, ast.NotEq: ast.Eq, ast.In: ast.NotIn, ast.NotIn: ast.In,
+        ast.Lt: ast.GtE, ast.GtE: ast.Lt, ast.Gt: ast.LtE, ast.LtE: ast.Gt}
+
+
+def equivalent_forms(test: ast.expr, pol: bool) -> list[tuple[str, bool]]:
+    """All spellings of one guard: (text, polarity) pairs that mean the same condition."""
+    out = [(norm(test), pol)]
+    if isinstance(test, (ast.Name, ast.Attribute, ast.Call, ast.Subscript, ast.Constant)):
+        out.append(("not " + norm(test), not pol))
+    else:
+        out.append(("not (" + norm(test) + ")", not pol))
+    if isinstance(test, ast.Compare) and len(test.ops) == 1 and type(test.ops[0]) in _NEG:
+        neg = ast.Compare(left=test.left, ops=[_NEG[type(test.ops[0])]()], comparators=test.comparators)
+        out.append((norm(neg), not pol))
+    if isinstance(test, ast.UnaryOp) and isinstance(test.op, ast.Not):
+        out.append((norm(test.operand), not pol))
+    return out
